@@ -318,7 +318,23 @@ type c09Engine struct {
 type c09Numberer struct{ n int }
 
 func (p *c09Numberer) New() vuego.NodeProcessor            { return &c09Numberer{} }
-func (p *c09Numberer) PreProcess(nodes []*html.Node) error { return nil }
+// before evaluation it marks the headings, paragraphs and list items of the template it is given (a step that is
+// not idempotent: a tree that were pre-processed twice would carry the mark twice)
+func (p *c09Numberer) PreProcess(nodes []*html.Node) error {
+	var walk func(n *html.Node)
+	walk = func(n *html.Node) {
+		if n.Type == html.ElementNode && (n.Data == "h1" || n.Data == "h2" || n.Data == "p" || n.Data == "ul" || n.Data == "section" || n.Data == "div") {
+			n.Attr = append(n.Attr, html.Attribute{Key: "data-pre", Val: "1"})
+		}
+		for c := n.FirstChild; c != nil; c = c.NextSibling {
+			walk(c)
+		}
+	}
+	for _, n := range nodes {
+		walk(n)
+	}
+	return nil
+}
 func (p *c09Numberer) PostProcess(nodes []*html.Node) error {
 	var walk func(n *html.Node)
 	walk = func(n *html.Node) {
